@@ -192,13 +192,20 @@ func trunc(s string, n int) string {
 	return s
 }
 
-// planLines returns every line of every list of a plan.
+// planLines returns the lines of the lists of a plan that requests may be
+// derived from.  Very long lines are left out: a request for the 9000-byte
+// "host" of a 9000-byte rule makes the library match a 9000-state pattern
+// against a 9000-byte URL, which costs seconds per query and says nothing.
 func planLines(lists []disk.ListPlan) (lines []string) {
 	for _, l := range lists {
 		if len(l.Text) > 1<<17 {
 			continue // the rare huge lists are not worth splitting
 		}
-		lines = append(lines, strings.Split(l.Text, "\n")...)
+		for _, ln := range strings.Split(l.Text, "\n") {
+			if len(ln) <= 200 {
+				lines = append(lines, ln)
+			}
+		}
 	}
 	return lines
 }
